@@ -427,7 +427,12 @@ where
                                 .await
                             {
                                 Ok(strm) => strm,
-                                Err(e) => return Err(e),
+                                Err(e) => {
+                                    // The search as a whole has failed; the result of the
+                                    // page just read is not its result.
+                                    stream.res = None;
+                                    return Err(e);
+                                }
                             };
                             // Again, we're replacing the innards of the original stream with
                             // the contents of the new one.
